@@ -64,7 +64,35 @@ func frontExec(b *spec.Built, n *spec.Node, rec any, front string, prefill any, 
 		}
 		var r *http.Request
 		if front == "form" {
-			r, _ = http.NewRequest("POST", "/x", strings.NewReader(vals.Encode()))
+			// a form is body plus query (as net/http defines it): the record is sent in the body, split over body and URL (every key
+			// whole in one place, so that the order of its values is the record's), or - for a method whose body net/http does not
+			// read - in the URL alone
+			enc := vals.Encode()
+			h := 0
+			for i := 0; i < len(enc); i++ {
+				h = h*31 + int(enc[i])
+			}
+			if h < 0 {
+				h = -h
+			}
+			switch h % 4 {
+			case 1:
+				body, query := url.Values{}, url.Values{}
+				i := 0
+				for _, k := range sortedKeys(vals) {
+					if (h>>uint(i%16))&1 == 0 {
+						body[k] = vals[k]
+					} else {
+						query[k] = vals[k]
+					}
+					i++
+				}
+				r, _ = http.NewRequest([]string{"POST", "PUT", "PATCH"}[h%3], "/x?"+query.Encode(), strings.NewReader(body.Encode()))
+			case 2:
+				r, _ = http.NewRequest("DELETE", "/x?"+enc, strings.NewReader("ignored=1"))
+			default:
+				r, _ = http.NewRequest("POST", "/x", strings.NewReader(enc))
+			}
 			r.Header.Set("Content-Type", "application/x-www-form-urlencoded")
 		} else {
 			r, _ = http.NewRequest("GET", "/x?"+vals.Encode(), nil)
@@ -264,3 +292,12 @@ func sortStrings(s []string) {
 }
 
 var _ = obs.Render
+
+func sortedKeys(v url.Values) []string {
+	ks := make([]string, 0, len(v))
+	for k := range v {
+		ks = append(ks, k)
+	}
+	sortStrings(ks)
+	return ks
+}
